@@ -138,7 +138,7 @@ func (s *seekSink) Bytes() []byte { return s.buf }
 type plainSink struct{ bytes.Buffer }
 
 // Values is the value alphabet; index 0 is the default.
-const NumValues = 10
+const NumValues = 11
 
 func (in *interp) value(i int, self pdf.Reference) pdf.Object {
 	if i == 8 {
@@ -160,7 +160,7 @@ func value(i int, self pdf.Reference) pdf.Object {
 	case 2:
 		return pdf.Name("A B/#(")
 	case 3:
-		return pdf.String(")(\\\r")
+		return pdf.String(")(\\\r()(")
 	case 4:
 		return pdf.Dict{"S": pdf.Array{pdf.String("in(side"), pdf.Integer(7)}, "N": nil}
 	case 5:
@@ -171,6 +171,15 @@ func value(i int, self pdf.Reference) pdf.Object {
 		return pdf.Array{}
 	case 9:
 		return pdf.String("\x00\x01\xfe\xff binary \r\n\r text that is longer than one AES block (16 bytes)")
+	case 10:
+		// an object of several KiB whose names all need escaping; the name
+		// lengths cycle so that a '#' falls on every offset modulo the scanner's
+		// buffer size
+		a := make(pdf.Array, 0, 700)
+		for i := 0; i < 700; i++ {
+			a = append(a, pdf.Name("AAA"[:1+i%3]+" B"))
+		}
+		return a
 	}
 	panic("bad value index")
 }
@@ -219,6 +228,9 @@ type Env struct {
 	BigBodies bool
 	// NoCompressed removes WriteCompressed from the alphabet.
 	NoCompressed bool
+	// SmallValues leaves the multi-KiB value out of the value alphabet (for the
+	// checks that run once per byte of the file).
+	SmallValues bool
 	// NoHigh removes the high object numbers (which make the xref table long).
 	NoHigh bool
 	// MaxChunk, if > 0, restricts the chunk alphabet to its first MaxChunk
@@ -241,6 +253,13 @@ type interp struct {
 	bigDone bool
 }
 
+func (in *interp) numValues() int {
+	if in.env != nil && in.env.SmallValues {
+		return NumValues - 1
+	}
+	return NumValues
+}
+
 func (in *interp) pick(n int, label string) int {
 	if in.env != nil && in.env.FreeValues {
 		return in.c.Choose(n, label)
@@ -259,7 +278,7 @@ func (in *interp) arg(what string, o pdf.Object) pdf.Object {
 func (in *interp) chooseRef(allowHigh bool) (pdf.Reference, string) {
 	n := 1 + len(in.pending)
 	if allowHigh && in.high < 2 && !(in.env != nil && in.env.NoHigh) {
-		n += 2
+		n += 3
 	}
 	k := in.c.Choose(n, "ref")
 	switch {
@@ -270,10 +289,7 @@ func (in *interp) chooseRef(allowHigh bool) (pdf.Reference, string) {
 		in.pending = append(in.pending[:k-1:k-1], in.pending[k:]...)
 		return r, fmt.Sprintf("pending%d", k-1)
 	default:
-		g := uint16(0)
-		if k-len(in.pending)-1 == 1 {
-			g = 3
-		}
+		g := []uint16{0, 3, 65535}[k-len(in.pending)-1]
 		in.high++
 		return pdf.NewReference(uint32(300+50*in.high), g), fmt.Sprintf("high-gen%d", g)
 	}
@@ -398,7 +414,7 @@ func Exec(cfg Config, c *explore.Ctx, maxOps int, env *Env) (res *Result) {
 			res.Ops = append(res.Ops, fmt.Sprintf("Alloc->%v", r))
 		case "put":
 			ref, how := in.chooseRef(true)
-			vi := in.pick(NumValues, "value")
+			vi := in.pick(in.numValues(), "value")
 			res.Ops = append(res.Ops, fmt.Sprintf("Put(%v[%s], v%d)", ref, how, vi))
 			if !put(ref, in.value(vi, ref), "Put value") {
 				return res
@@ -414,7 +430,7 @@ func Exec(cfg Config, c *explore.Ctx, maxOps int, env *Env) (res *Result) {
 			for i := range refs {
 				var how string
 				refs[i], how = in.chooseRef(false)
-				vi := in.pick(NumValues, "value")
+				vi := in.pick(in.numValues(), "value")
 				vals[i] = in.value(vi, refs[i])
 				in.arg("WriteCompressed value", vals[i])
 				desc += fmt.Sprintf(" %v[%s]=v%d", refs[i], how, vi)
@@ -490,15 +506,19 @@ func Exec(cfg Config, c *explore.Ctx, maxOps int, env *Env) (res *Result) {
 				d["Length"] = pdf.Integer(total + 1)
 			}
 			// a Put issued while the stream is open is deferred by the Writer
-			// 0: nothing, 1: Put of a plain value, 2: Put of a stream object
-			putInsideKind := in.c.Choose(3, "put-inside")
+			// 0: nothing, 1: Put of a plain value, 2: Put of a small stream object,
+			// 3: Put of a stream object larger than the Writer's 1024-byte threshold
+			putInsideKind := in.c.Choose(4, "put-inside")
 			putInside := putInsideKind != 0
 			deferred := 0
 			putDeferred := func() bool {
 				r2 := w.Alloc()
 				deferred++
-				if putInsideKind == 2 {
+				if putInsideKind >= 2 {
 					data := []byte("deferred stream body")
+					if putInsideKind == 3 {
+						data = bytes.Repeat([]byte("deferred stream body of more than 1024 bytes. "), 40)
+					}
 					if err := w.Put(r2, pdf.NewStream(pdf.Dict{"K": pdf.String("deferred(")}, data)); err != nil {
 						in.fail(err, "Put stream while stream open")
 						return false
@@ -506,7 +526,7 @@ func Exec(cfg Config, c *explore.Ctx, maxOps int, env *Env) (res *Result) {
 					res.Streams[r2] = &StreamModel{Dict: pdf.Dict{"K": pdf.String("deferred(")}, Data: data}
 					return true
 				}
-				vi := in.pick(NumValues, "value")
+				vi := in.pick(in.numValues(), "value")
 				return put(r2, in.value(vi, r2), "Put while stream open")
 			}
 			res.Ops = append(res.Ops, fmt.Sprintf("OpenStream(%v[%s], filter=%s, length-mode=%d, %d writes of %d bytes, put-inside=%d)", ref, how, FilterNames[fi], lenMode, len(parts), total, putInsideKind))
